@@ -477,6 +477,10 @@ class Message:
             raise ValueError("_append_response_block only works on responses.")
 
         block2 = next_block.opt.block2
+        if next_block.code != self.code:
+            # eg. an error response carrying a Block2 option: not a part of
+            # the representation that is being assembled
+            raise error.UnexpectedBlock2("Response code changed during Block2 transfer")
         if not block2.is_valid_for_payload_size(len(next_block.payload)):
             raise error.UnexpectedBlock2("Payload size does not match Block2")
         if block2.start != len(self.payload):
